@@ -175,6 +175,49 @@ def run(ctx):
                                   {"norb": norb, "nelec": ne, "projector_drift": float(drift)}))
         except Exception as ex:
             spec_fail.append((f"{kind}.optimize", "optimisation runs", {"norb": norb, "nelec": ne, "error": repr(ex)[:300]}))
+    # ---- two trial objects that differ only in the number of SCF iterations (a one-step probe, then a full optimisation):
+    # each must run its own number of iterations
+    for kind in ("rhf", "uhf"):
+        try:
+            norb, ne = 4, ((2, 2) if kind == "rhf" else (2, 1))
+            h0, h1, L = gapped_problem(rng, norb, ne, spin_dep=(kind == "uhf"))
+            ham = {"h0": h0, "h1": jnp.array(h1), "chol": jnp.array(L.reshape(len(L), -1))}
+            cls = wavefunctions.rhf if kind == "rhf" else wavefunctions.uhf
+            eigs = [np.linalg.eigh(h1[sp])[1] for sp in (0, 1)]
+            guess = [eigs[sp][:, :ne[sp]] for sp in (0, 1)]
+            wd0 = {"mo_coeff": jnp.array(guess[0])} if kind == "rhf" else {"mo_coeff": [jnp.array(guess[0]), jnp.array(guess[1])]}
+            probe = cls(norb, ne, n_opt_iter=1).optimize(dict(ham), dict(wd0))          # one Roothaan step
+            full = cls(norb, ne, n_opt_iter=60).optimize(dict(ham), dict(wd0))
+            # the one-step probe must be ONE plain Roothaan step (occupied projector), whatever other trial objects of the same
+            # sizes have been used before in this process
+            hh = h1 if kind == "uhf" else np.array([(h1[0] + h1[1]) / 2] * 2)
+            d0 = [guess[0] @ guess[0].T, guess[1] @ guess[1].T] if kind == "uhf" else [guess[0] @ guess[0].T] * 2
+            Dt = d0[0] + d0[1]
+            Jm = sum(np.sum(l * Dt) * l for l in L)
+            one = []
+            for sp in (0, 1):
+                Kx = sum(l @ d0[sp] @ l for l in L)
+                wv, vv = np.linalg.eigh(hh[sp] + Jm - Kx)
+                one.append(vv[:, :ne[sp]] @ vv[:, :ne[sp]].T)
+            cp = [np.array(probe["mo_coeff"])] * 2 if kind == "rhf" else [np.array(probe["mo_coeff"][0]), np.array(probe["mo_coeff"][1])]
+            dstep = max(np.abs(cp[sp] @ cp[sp].T - one[sp]).max() for sp in (0, 1))
+            if dstep > 1e-8:
+                spec_fail.append((f"{kind}.optimize", "a trial object asked for one SCF iteration performs one Roothaan step (its own iteration count, not that of an earlier object)",
+                                  {"norb": norb, "nelec": ne, "projector_difference_from_one_step": float(dstep)}))
+            cf = [np.array(full["mo_coeff"])] * 2 if kind == "rhf" else [np.array(full["mo_coeff"][0]), np.array(full["mo_coeff"][1])]
+            dm0 = [guess[0] @ guess[0].T, guess[1] @ guess[1].T]
+            if kind == "rhf":
+                dm0 = [dm0[0], dm0[0]]
+            dm_ref = independent_scf(h1 if kind == "uhf" else np.array([(h1[0] + h1[1]) / 2] * 2), L, ne, dm0)
+            e_ref = hf_energy(h0, h1, L, dm_ref)
+            e_full = hf_energy(h0, h1, L, [cf[0] @ cf[0].T, cf[1] @ cf[1].T])
+            evals += 2
+            if abs(e_full - e_ref) > 1e-7:
+                spec_fail.append((f"{kind}.optimize", "from a reasonable guess reaches the same energy as an independent SCF solver on a well-conditioned problem",
+                                  {"norb": norb, "nelec": ne, "n_opt_iter": 60, "preceded_by": "a trial object with n_opt_iter=1 of the same sizes",
+                                   "library": e_full, "independent": e_ref}))
+        except Exception as ex:
+            spec_fail.append((f"{kind}.optimize", "optimisation with a non-default iteration count runs", {"error": repr(ex)[:300]}))
     # ---- differentiating through the optimisation when Fock levels coincide EXACTLY (two identical non-interacting
     # fragments; repeated one-body levels): the derivative of the optimised density must be finite
     for kind in ("rhf", "uhf"):
